@@ -170,14 +170,13 @@ pub fn format_buf(args: Vec<Rc<Object>>) -> Result<Collector, String> {
                 continue;
             }
             // Now print the arguments based on the specifier
-            if idx_arg >= args.len() {
-                return Err(String::from("positional arguments exceeded the count"));
-            }
-
             // If index specifier is empty, use positional index 'idx_arg'
             // Otherwise, use the specified index into the arguments list
             if curr_spec_idx.is_empty() {
                 // specifiers such as '{}', '{:10}', '{<5}', '{:0>5}' etc
+                if idx_arg >= args.len() {
+                    return Err(String::from("positional arguments exceeded the count"));
+                }
                 format_obj(
                     &mut collector,
                     &curr_spec_padding,
